@@ -8,6 +8,7 @@ import (
 
 	"github.com/massnetorg/mass-core/wire"
 	"massnet.org/mass-wallet/config"
+	"massnet.org/mass-wallet/masswallet/keystore"
 	"massnet.org/mass-wallet/masswallet/txmgr"
 	rt "massnet.org/mass-wallet/zzverifrt"
 )
@@ -227,6 +228,107 @@ func VerifC06WorkerResume() {
 		}
 		rt.Assert(gotImport[i] == wi, "unfinished-rescan-resumed-exactly-once")
 		rt.Assert(gotRemove[i] == wr, "pending-removal-resumed-exactly-once")
+	}
+	rt.Reach("end")
+}
+
+// ---- fast-forward decision at start-up ----
+
+var c06ShaByHeight int
+
+func (n *c01Node) FetchBlockShaByHeight(height uint64) (*wire.Hash, error) {
+	c06ShaByHeight++
+	if n.fail() {
+		return nil, errC01Node
+	}
+	if height < n.base || height-n.base >= uint64(len(n.best)) {
+		return nil, errC01Node
+	}
+	h := n.best[height-n.base].BlockHash()
+	return &h, nil
+}
+
+// c06Window: how far behind the node's tip the start-up catch-up stops skipping (the literal 2000 in Start).
+// Under the symbolic executor the literal is scaled down to 1 (registry option scale_consts) and this function is
+// redirected to c06WindowModel; native replays run the real distance with 2000 further blocks.
+func c06Window() int      { return 2000 }
+func c06WindowModel() int { return 1 }
+
+// VerifC06FastForward: a restart with the node far ahead. Start may skip the contents of old blocks (recording
+// their ids only) only when no wallet is being followed: with two wallets of arbitrary status (finished,
+// rescanning, finished and marked for removal), if one of them is a finished wallet that is not being removed,
+// every block between the stored tip and the node's tip is fetched and filtered, none is skipped; in every case
+// the recorded chain ends at the node's tip.
+func VerifC06FastForward() {
+	st := txmgr.VerifNewStoresWithKeystoreManager([]byte("DJr6BomK"))
+	node := &c01Node{}
+	w := &WalletManager{config: &config.Config{Wallet: config.NewDefWalletConfig()}, db: st.DB, chainParams: config.ChainParams,
+		ksmgr: st.Ks, bucketMeta: st.Meta, utxoStore: st.Utxo, txStore: st.Tx, syncStore: st.Sync, chainFetcher: node}
+	c01HdrReg, c01HdrIDs, c01IDSeeds = nil, nil, nil
+	const maxB = 3
+	for i := 0; i < 2+maxB+1; i++ {
+		var id wire.Hash
+		copy(id[:], rt.NondetBytes(32))
+		for _, o := range c01IDSeeds {
+			rt.Assume(o != id)
+		}
+		c01IDSeeds = append(c01IDSeeds, id)
+	}
+	win := c06Window()
+	H := uint64(rt.NondetLen(2, 5)) // small heights: the skip needs the node's height to exceed the window
+	b := rt.NondetLen(0, maxB) + win
+	P := c01Block(H-1, wire.Hash{}, 10)
+	A := c01Block(H, P.BlockHash(), 11)
+	best := []*wire.MsgBlock{P, A}
+	for i := 1; i <= b; i++ {
+		best = append(best, c01Block(H+uint64(i), best[len(best)-1].BlockHash(), 2000+int64(i)))
+	}
+	st.VerifSetSyncedChain([]txmgr.BlockMeta{c01Meta(P), c01Meta(A)})
+	node.base, node.best, node.blocks = H-1, best, best
+	c06IndexHeight = H + uint64(b)
+	ids := []string{"ac10aaaaaaaaaaaaaaaaaaaaaaaaaaaaaaaaaaaaaa", "ac10bbbbbbbbbbbbbbbbbbbbbbbbbbbbbbbbbbbbbb"}
+	followed := false
+	for _, id := range ids {
+		v := make([]byte, 9)
+		switch rt.NondetLen(0, 3) {
+		case 0:
+			binary.BigEndian.PutUint64(v, txmgr.WalletSyncedDone)
+			followed = true
+		case 1:
+			c := rt.NondetU64()
+			rt.Assume(c != txmgr.WalletSyncedDone)
+			binary.BigEndian.PutUint64(v, c)
+		case 2:
+			binary.BigEndian.PutUint64(v, txmgr.WalletSyncedDone)
+			v[8] = txmgr.WalletFlagsRemove
+		case 3:
+			continue // no such wallet
+		}
+		st.WS.Set([]byte(id), v)
+		keystore.VerifAddWallet(st.Ks, id)
+	}
+	h, err := NewNtfnsHandler(w)
+	rt.Assert(err == nil && h != nil, "handler-created")
+	if err != nil || h == nil {
+		rt.Reach("end")
+		return
+	}
+	c06ShaByHeight = 0
+	err = h.Start()
+	rt.Assert(err == nil, "start-succeeds")
+	if err == nil {
+		if !rt.Symbolic() {
+			close(h.quit)
+		}
+		if followed {
+			rt.Assert(c06ShaByHeight == 0, "no-block-is-skipped-while-a-wallet-is-followed")
+			rt.Reach("followed")
+		} else if c06ShaByHeight > 0 {
+			rt.Reach("skipped")
+		}
+		k := make([]byte, 8)
+		binary.BigEndian.PutUint64(k, H+uint64(b))
+		rt.Assert(bytes.Equal(st.VerifSyncedToHeight(), k) && h.bestBlock.Height == H+uint64(b), "recorded-chain-ends-at-the-nodes-tip")
 	}
 	rt.Reach("end")
 }
